@@ -34,3 +34,12 @@ func vSortedWant(els []int) []string {
 	}
 	return out
 }
+
+// vScribble overwrites the slices Sorted and Elements hand out.
+func vScribble(s *vImpl) {
+	for _, sl := range [][]int{s.Sorted(), s.Elements()} {
+		for k := range sl {
+			sl[k] = -77
+		}
+	}
+}
